@@ -544,6 +544,27 @@ def with_lead(rng, func, p=0.5):
     return ret, name + "~" + ",".join(map(str, lead)), pdesc, bdesc
 
 
+# parameter attributes as positions in the model's list `Core3.kParamAttr`: immarg inreg nest noalias nocapture nofree nonnull noundef readnone readonly returned signext
+# swiftasync swifterror swiftself writeonly zeroext
+PATTR_INT, PATTR_PTR, PATTR_ANY = [1, 7, 10, 11, 16, 0], [1, 2, 3, 4, 5, 6, 7, 8, 9, 10, 12, 13, 14, 15], [1, 7, 10]
+
+
+def with_pattrs(rng, func, p=0.5):
+    """attributes between the type and the name of some parameters (a LIST per parameter: repeats and any order are kept)"""
+    ret, name, pdesc, bdesc = func
+    if pdesc == "-" or rng.random() >= p:
+        return func
+    ps = []
+    for d in pdesc.split("|"):
+        f = d.split("~")
+        if len(f) == 2 and rng.random() < 0.5:
+            ty = f[0]
+            pool = PATTR_INT if (ty[0] == "i" and ty[1:].isdigit()) else PATTR_PTR if ty.startswith("p") else PATTR_ANY
+            d += "~" + ",".join(str(rng.choice(pool)) for _ in range(rng.choice([1, 1, 2, 3])))
+        ps.append(d)
+    return ret, name, "|".join(ps), bdesc
+
+
 def with_tail(rng, func, p=0.5, addrspace_ok=True):
     """clauses behind the parameter list: unnamed_addr / local_unnamed_addr, addrspace(N), attribute keywords, section, partition, align, gc"""
     ret, name, pdesc, bdesc = func
